@@ -246,6 +246,8 @@ class Dispatcher:
             base = self.ev(n.value, env)
             if isinstance(base, Obj) and base.kind == 'vec' and n.attr in ('_x', '_y', '_z', 'x', 'y', 'z'):
                 return base.data['xyz'.index(n.attr[-1])]
+            if isinstance(base, Obj) and base.kind == 'mat' and n.attr.startswith('_') and n.attr[1:] in SLOTS:
+                return base.data[n.attr[1:]]
             raise AnalysisError(f'{self.mod.relpath}:{n.lineno}: attribute not modelled: `{ast.unparse(n)}`')
         if isinstance(n, ast.BinOp) and isinstance(n.op, ast.MatMult):
             res, _ = self.binop(self.ev(n.left, env), self.ev(n.right, env), inplace=False)
@@ -288,6 +290,8 @@ class Dispatcher:
                     k = KIND_OF[args[0].name]
                     data: Any = None if k != 'mat' else {s: Poly.sym(f'UNINIT_{s}') for s in SLOTS}
                     return Obj(args[0].name, data if k != 'vec' else [Poly.sym('UNINIT')] * 3, 'fresh')
+                if meth == '_from_raw' and KIND_OF[recv.name] == 'mat' and len(args) == 9 and all(isinstance(a, Poly) for a in args):
+                    return Obj(recv.name, dict(zip(SLOTS, args)), 'fresh')
                 if meth == 'from_angle' and KIND_OF[recv.name] == 'mat' and len(args) == 1 and isinstance(args[0], Obj) and args[0].kind == 'ang':
                     return Obj(recv.name if recv.name != 'MatrixBase' else 'Matrix', from_angle_entries(args[0]), 'fresh')
                 raise AnalysisError(f'{self.mod.relpath}:{n.lineno}: class-level call not modelled: `{ast.unparse(n)}`')
